@@ -617,6 +617,16 @@ def method_call(eng, st, recv, name, args, kwargs, node):
                                 patterns=[smt.keypair(key, pv)]))
             return [(st, VSeq(rr, "bytes"))]
         raise Unsupported(f"PKCS1 method {name}")
+    if isinstance(r, VConst) and r.what == "pydict" and name == "get":
+        # literal table lookup with a symbolic key: if-then-else chain over the literal's entries
+        table = r.py
+        key = eng.deref(st, args[0])
+        dflt = eng.deref(st, args[1]) if len(args) > 1 else VNone()
+        res = dflt
+        for k0, v0 in reversed(list(table.items())):
+            hit = eng.eq_vals(st, key, eng.const_value(k0))
+            res = ite_val(hit, eng.const_value(v0), res)
+        return [(st, res)]
     if isinstance(r, VConst) and r.what == "counter" and name == "most_common":
         src = r.py[1]
         if args:
@@ -730,7 +740,7 @@ def file_method(eng, st, ref, cell, name, args, kwargs, node):
             end = z3.If(n < 0, L, z3.If(e1 < start, start, e1))
         data = IS.sl(content, start, end)
         newcell = dict(cell)
-        newcell["pos"] = VInt(pos + (end - start))
+        newcell["pos"] = eng.named(st, VInt(pos + (end - start)), "pos")
         st.heap[ref.ident] = newcell
         res = VSeq(data, "bytes")
         return [(st, res)]
@@ -762,9 +772,9 @@ def file_method(eng, st, ref, cell, name, args, kwargs, node):
         else:
             raise Unsupported("whence")
         newcell = dict(cell)
-        newcell["pos"] = VInt(newpos)
+        newcell["pos"] = eng.named(st, VInt(newpos), "pos")
         st.heap[ref.ident] = newcell
-        return [(st, VInt(newpos))]
+        return [(st, newcell["pos"])]
     if name == "peek":
         rest = IS.sl(content, z3.If(pos <= L, pos, L), L)
         r = fresh("peek", ISq)
@@ -1170,11 +1180,16 @@ def _with_env(st, env):
 
 def make_result(eng, st, rty):
     if isinstance(rty, tuple) and rty[0] == "opt":
-        # optional result: boxed, None or the base type
-        base = rty[1]
-        t = fresh("result", Val)
-        facts = [z3.Or(Val.is_VN(t), z3.And(*wt(t, base)) if wt(t, base) else z3.BoolVal(True))]
-        return VAny(t), facts
+        # optional result: a none-flag and a value of the base type
+        v, facts = make_result(eng, st, rty[1])
+        return VOpt(fresh("result_isnone", B), v), facts
+    if isinstance(rty, tuple) and rty[0] == "tuple":
+        items, facts = [], []
+        for et in rty[1:]:
+            v, f = make_result(eng, st, et)
+            items.append(v)
+            facts += f
+        return VTuple(items), facts
     if isinstance(rty, tuple) and rty[0] == "record":
         from .heapmodel import sym_record
         return sym_record(eng, st, rty[1])
